@@ -42,4 +42,11 @@ InnerSmall == <<
     UnionDef(<<Arm(1, Int(8)), Arm(2, Int(1))>>)
 >>
 
+FormsAll == {"plain", "opt", "fixed", "dyn", "lim", "greedy", "ext"}
+FormsPlain == {"plain"}
+FormsPlainOpt == {"plain", "opt"}
+\* scalar alphabets for the constructor
+ScalarsU   == {Int(1), Int(2), Int(4), Int(8)}
+ScalarsU18 == {Int(1), Int(8)}
+ScalarsAll == {Int(1), Int(2), Int(4), Int(8), SInt(1), SInt(2), SInt(4), SInt(8), Flt(4), Flt(8)}
 =============================================================================
